@@ -18,7 +18,7 @@ RULE = ('Random edit histories of 5-60 operations over a pool of 1-5 molecules: 
         'itself, Block.to_molecule output, a Block), make_edges_from_interaction_type, MergeAllMolecules, MergeChains. '
         'After each operation every molecule of the pool (also sources of earlier copies/subgraphs) is compared with '
         'its shadow. Non-trivial history = >= 2 merges into the same molecule separated by a node addition or removal. '
-        'distinct = distinct operation sequences. Also: add_or_replace_interaction on absent/removed atoms; residue number and charge group 0 or negative, empty chain.')
+        'distinct = distinct operation sequences. Also: the molecule's citation keys (copies, subgraphs, add_or_replace with citations, merges); add_or_replace_interaction on absent/removed atoms; residue number and charge group 0 or negative, empty chain.')
 ASSUMPTIONS = ['node keys are integers (merge_molecule numbers newcomers from an integer offset)',
                '"last atom" of the receiver = atom with the highest key; when that is not also the last inserted atom '
                'either reading is accepted',
@@ -36,6 +36,7 @@ class Shadow:
         self.edges = {}
         self.inter = {}
         self.nrexcl = nrexcl
+        self.cit = {'vermouth'}          # the molecule's citation keys (molecule-level state that copies and subgraphs must own)
         self.changed_since_merge = False
         self.merges = 0
         self.nt = False
@@ -63,6 +64,7 @@ class Shadow:
 
     def subgraph(self, keys):
         s = Shadow(self.nrexcl)
+        s.cit = set(self.cit)
         ks = set(keys)
         for k in keys:
             s.nodes[k] = copy.deepcopy(self.nodes[k])
@@ -94,6 +96,8 @@ def shadow_state(s):
 
 def compare(mol, s):
     nodes, edges, inter = snapshot(mol)
+    if set(getattr(mol, 'citations', ())) != s.cit:
+        return ('citations-differ', {'observed': sorted(mol.citations), 'expected': sorted(s.cit)})
     for t, lst in inter.items():
         for atoms, _, _ in lst:
             missing = [a for a in atoms if a not in nodes]
@@ -355,7 +359,11 @@ def run_history(rnd, nops, b):
                     m.add_interaction(t, atoms, list(par), meta=dict(meta))
                     s.inter.setdefault(t, []).append([atoms, par, meta])
                 else:
-                    m.add_or_replace_interaction(t, atoms, list(par), meta=dict(meta))
+                    cit = {'ref%d' % step} if rnd.random() < 0.3 else None
+                    m.add_or_replace_interaction(t, atoms, list(par), meta=dict(meta), citations=cit)
+                    if cit:
+                        s.cit |= cit
+                        b.feat('op_add_or_replace_with_citation')
                     for i in s.inter.setdefault(t, []):
                         if i[0] == atoms and i[2].get('version', 0) == meta.get('version', 0):
                             i[1], i[2] = par, meta
@@ -500,6 +508,7 @@ def run_history(rnd, nops, b):
                     s.nt = True
                     b.feat('merge_after_edit_following_merge')
                 apply_merge_to_shadow(s, os_, dict(corr), off)
+                s.cit |= set(os_.cit)
                 s.merges += 1
                 s.changed_since_merge = False
             elif op == 'make_edges' and s.inter:
@@ -546,6 +555,7 @@ def run_history(rnd, nops, b):
                 for k, d in rn.items():
                     s2.nodes[k] = copy.deepcopy(d)
                 s2.edges = copy.deepcopy(re_)
+                s2.cit = set().union(*[x[1].cit for x in pool])
                 for t, lst in ri.items():
                     s2.inter[t] = [[a, list(p), {k: eval(v) for k, v in me}] for a, p, me in lst]
                 pool[:] = [[res, s2]]
